@@ -68,7 +68,7 @@ theorem binopB_sound {defs : List Def} {S : List T} {op : BinOp} {ta tb t : T} {
   all_goals
     cases ta <;> try (simp [checkBinB] at hc)
     all_goals
-      cases tb <;> try (simp [checkBinB] at hc)
+      cases tb <;> try (simp at hc)
       all_goals
         subst hc
         simp only [HasTy] at ha hb
